@@ -90,7 +90,7 @@ fn insert_section(b: &[u8], secs: &[(u8, usize, usize)], before: usize, sec: &[u
 pub fn mutate(r: &mut Rng, seed: &[u8]) -> (Vec<u8>, &'static str) {
     let secs = sections(seed);
     let mut b = seed.to_vec();
-    let k = r.weighted(&[8, 12, 6, 6, 5, 5, 5, 4, 4, 4, 4, 4, 3, 3, 3, 2, 5]);
+    let k = r.weighted(&[8, 12, 6, 6, 5, 5, 5, 4, 4, 4, 4, 4, 3, 3, 3, 2, 5, 0, 2]);
     match k {
         0 => {
             if b.len() > 9 {
@@ -256,8 +256,46 @@ pub fn mutate(r: &mut Rng, seed: &[u8]) -> (Vec<u8>, &'static str) {
             (m, "random-after-header")
         }
         16 => inflate_count(r, b),
+        18 => {
+            // the seed (or an empty component) wrapped into components nested inside each other: parsing recurses per level
+            let header: &[u8] = &[0, 0x61, 0x73, 0x6d, 0x0d, 0, 1, 0];
+            let mut inner = if wasmparser::Parser::is_component(seed) { seed.to_vec() } else { header.to_vec() };
+            let depth = *r.pick(&[1usize, 3, 30, 63, 64, 65, 66, 100, 140, 200, 400, 1000, 3000]);
+            for _ in 0..depth {
+                let mut c = header.to_vec();
+                c.push(4);
+                c.extend(leb(inner.len() as u32));
+                c.extend_from_slice(&inner);
+                inner = c;
+            }
+            (inner, "deep-nesting")
+        }
         _ => ((0..r.below(64)).map(|_| r.next() as u8).collect(), "random"),
     }
+}
+
+/// greatest number of components nested inside each other (0: no nested component)
+fn nesting_depth(bytes: &[u8]) -> usize {
+    let (mut depth, mut max) = (0usize, 0usize);
+    let mut stack: Vec<bool> = vec![]; // true: a component was opened
+    for p in wasmparser::Parser::new(0).parse_all(bytes) {
+        match p {
+            Ok(wasmparser::Payload::ComponentSection { .. }) => {
+                stack.push(true);
+                depth += 1;
+                max = max.max(depth);
+            }
+            Ok(wasmparser::Payload::ModuleSection { .. }) => stack.push(false),
+            Ok(wasmparser::Payload::End(_)) => {
+                if let Some(true) = stack.pop() {
+                    depth -= 1;
+                }
+            }
+            Ok(_) => {}
+            Err(_) => break,
+        }
+    }
+    max
 }
 
 /// the item count at the start of a vector-shaped section (of the module, or of a core module nested anywhere in a
@@ -410,9 +448,16 @@ pub fn run(ctx: &mut Ctx) {
         ctx.count(&format!("mutation={kind}"));
         ctx.count(if wasmparser::Parser::is_component(&seed) { "seed=component" } else { "seed=module" });
         let facts = crate::parse_facts::facts(&bytes);
-        ctx.case_line(&format!("parse {case} kind={kind} len={} {}", bytes.len(), facts.line()));
+        // for the cases built as nested components: how many levels (counted on the bytes, with wasmparser)
+        let nest: Option<usize> = if kind == "deep-nesting" { Some(nesting_depth(&bytes)) } else { None };
+        ctx.case_line(&format!(
+            "parse {case} kind={kind} len={} {}{}",
+            bytes.len(),
+            facts.line(),
+            nest.map_or(String::new(), |n| format!(" nest={n}"))
+        ));
         let mut fails: Vec<(String, String)> = vec![];
-        let outcome: Vec<String> = if kind == "inflate-count" {
+        let outcome: Vec<String> = if kind == "inflate-count" || kind == "deep-nesting" {
             // in a child process: a failed allocation aborts, which no handler can turn into an observation
             let path = format!("{}/one.bin", ctx.outdir);
             std::fs::write(&path, &bytes).unwrap();
@@ -447,6 +492,14 @@ pub fn run(ctx: &mut Ctx) {
             ctx.count("accepted-by-some-parser");
         }
         ctx.impl_line(&format!("parse {case} {}", outcome[0]));
+        if nest.is_some() {
+            let c = outcome.iter().find(|o| o.starts_with("component=")).cloned().unwrap_or_default();
+            ctx.impl_line(&format!("parse {case} nesting={}", match c.as_str() {
+                "component=OK" => "ok",
+                "component=ERR" => "err",
+                _ => "abort",
+            }));
+        }
         if fails.is_empty() {
             ctx.ok(fam, case);
         } else {
